@@ -16,7 +16,9 @@ RULE = ("correspondence: random histories of 2..5 process_frame_fast calls on sh
         "crop_function call the real buffers are compared slot by slot with the model (slots < size: model crop "
         "of that block's peaks, other slots: unchanged), both back-ends; oracle: histories of 1..6 calls "
         "sharing crop buffers / frame buffer / output arrays (prefilled) / pattern objects vs fresh-object runs "
-        "(bit-identical), batch entry points vs per-frame calls, pattern re-query order, matcher reuse. "
+        "(bit-identical), batch entry points vs per-frame calls, pattern re-query order, used patterns whose public parameters are then "
+        "changed (scalars rebound, array parameters rebound or updated in place) vs fresh patterns with the same current "
+        "parameters, matcher reuse. "
         "Non-trivial: a history with >= 2 calls in which a border peak occurs (distinct = case hashes).")
 ASSUMPTIONS = [
     "`eval` (log scaling, FFT, evaluation kernels) only reads the h x w cells of its crop (EvalLocal) — "
@@ -153,6 +155,52 @@ def run_case(kind, params):
                 msgs.append(f"{pp['kind']}: get_template{shp} is not rfft2 of the fresh mask")
             if shared.get_crop_size() != impl.pattern_from(pp).get_crop_size():
                 msgs.append("crop size changed")
+    elif kind == "retune":
+        # a pattern object that has been used, then had its public parameters changed (rebound, or array parameters
+        # updated in place), must behave like a fresh pattern constructed with the parameters it has now
+        from libertem_blobfinder.common import patterns as pt
+        pp = params["pattern"]
+        shared = impl.pattern_from(pp)
+        shp = tuple(params["shape"])
+        shared.get_mask(shp)
+        shared.get_template(shp)
+        f = params["factor"]
+        how = params["how"]
+        k = pp["kind"]
+        if k in ("circular", "radial_gradient"):
+            shared.radius = shared.radius * f
+            fresh = type(shared)(radius=shared.radius, search=shared.search)
+        elif k == "background_subtraction":
+            shared.radius = shared.radius * f
+            shared.radius_outer = shared.radius_outer * f
+            fresh = pt.BackgroundSubtraction(radius=shared.radius, search=shared.search, radius_outer=shared.radius_outer)
+        elif k == "user":
+            if how == "inplace":
+                shared.template *= np.float32(f)
+            else:
+                shared.template = shared.template * np.float32(f)
+            fresh = pt.UserTemplate(template=np.array(shared.template, copy=True), search=shared.search)
+        else:  # rgbs
+            if how == "inplace":
+                shared.radial_map *= f
+            elif how == "rebind_array":
+                shared.radial_map = shared.radial_map * f
+            elif how == "delta":
+                shared.delta = shared.delta * (1 + f)
+            else:
+                shared.radius = shared.radius * f
+                shared.radius_outer = shared.radius_outer * f
+            fresh = pt.RadialGradientBackgroundSubtraction(
+                radius=shared.radius, search=shared.search, radius_outer=shared.radius_outer, delta=shared.delta,
+                radial_map=np.array(shared.radial_map, copy=True))
+        for q in (shp, tuple(params["shape2"])):
+            a = shared.get_mask(q)
+            b = fresh.get_mask(q)
+            if not np.array_equal(a, b, equal_nan=True):
+                msgs.append(f"{k}: after use and a parameter update ({how}, factor {f}) get_mask{q} differs from a fresh "
+                            f"pattern with the same current parameters (max diff {np.nanmax(np.abs(a - b)):.4g})")
+            if not np.array_equal(shared.get_template(q), fresh.get_template(q), equal_nan=True):
+                msgs.append(f"{k}: after use and a parameter update ({how}) get_template{q} differs from a fresh pattern")
     elif kind == "matcher":
         m = grm.Matcher(tolerance=params["tol"], min_weight=0.1, min_match=3)
         for inp in params["inputs"]:
@@ -221,6 +269,17 @@ def search(ctx, boost=1, focus=()):
         p["shapes"].append(p["shapes"][0])
         ctx.oracle_case("requery", p, run_case("requery", p))
         ctx.count("requery")
+    hows = {"rgbs": ("inplace", "rebind_array", "delta", "scalars"), "user": ("inplace", "rebind")}
+    for k in range((60 if thorough else 20) * boost):
+        pat = impl.pattern_params(rng, kinds=("rgbs", "user", "rgbs", "circular", "radial_gradient", "background_subtraction"),
+                                  rmax=6.0)
+        pat["search"] = float(pat["search"] * 1.6)   # room for the enlarged parameters
+        hw = hows.get(pat["kind"], ("scalars",))
+        p = {"seed": 0, "pattern": pat, "how": hw[k % len(hw)], "factor": float(rng.choice([0.8, 0.9, 1.1, 1.2])),
+             "shape": [int(rng.integers(8, 50)), int(rng.integers(8, 50))],
+             "shape2": [int(rng.integers(8, 50)), int(rng.integers(8, 50))]}
+        ctx.oracle_case("retune", p, run_case("retune", p), nontrivial=p["how"] in ("inplace", "rebind_array"))
+        ctx.count(f"retune_{pat['kind']}_{p['how']}")
     for k in range((20 if thorough else 5) * boost):
         inputs = []
         for _ in range(3):
